@@ -411,6 +411,7 @@ type Clause struct {
 type Param struct{ Name, Type string }
 
 type Pred struct {
+	Pkg    string // package path of the contract file that defines it
 	Opaque bool
 	Name   string
 	Params []Param
@@ -423,6 +424,11 @@ type CallUpdate struct {
 	GhostUpdate
 }
 
+type StatelessClause struct {
+	Clause
+	Except map[string]bool
+}
+
 type CallAssert struct {
 	Callee string
 	Clause
@@ -431,9 +437,25 @@ type CallAssert struct {
 
 // Protect: every read / write of the struct field must satisfy the given condition over the function's ghosts.
 type Protect struct {
-	Type, Field string
+	Type, Field string // Field: a name, "*" (every field) or "*!A!B" (every field but A and B)
 	Read, Write *Clause
-	Pkg         string
+	Pkg         string // the package whose contract file declares it
+	TypePkg     string // "detection" in detection.Signature: a type of another package, protected inside the functions of Pkg
+}
+
+func (p *Protect) matchesField(name string) bool {
+	if p.Field == name {
+		return true
+	}
+	if !strings.HasPrefix(p.Field, "*") {
+		return false
+	}
+	for _, ex := range strings.Split(p.Field, "!")[1:] {
+		if ex == name {
+			return false
+		}
+	}
+	return true
 }
 
 type GhostUpdate struct {
@@ -473,6 +495,7 @@ type FuncContract struct {
 	Uses     []string // named axiom groups this function's proof may use
 	Reveals  []string // opaque predicates whose definition this function's proof may use
 	props    map[string]bool
+	Stateless *StatelessClause // no package-level state of the module is written (transitively), except the listed globals
 	Owned    []string // parameters through which alone their object is reachable (checked: no escape here, owned/local at call sites): unknown calls cannot touch it
 	NoFrame  bool // no frame promise: callers havoc everything; no frame obligations
 	Decreases *Clause
@@ -507,7 +530,7 @@ func NewContractSet() *ContractSet {
 }
 
 var clauseKeywords = map[string]bool{"pred": true, "func": true, "requires": true, "ensures": true, "loop": true,
-	"modifies": true, "ufunc": true, "axiom": true, "lemma": true, "noframe": true, "owned": true, "opaque": true, "reveal": true, "uses": true, "protect": true, "protocol-only": true, "deterministic": true, "concurrent": true, "bag": true, "group": true, "include": true, "end": true, "trusted": true, "pure": true, "safe": true, "decreases": true, "let": true, "ghost": true, "init": true, "call": true, "mapupdate": true, "return-ensures": true, "package": true}
+	"modifies": true, "ufunc": true, "axiom": true, "lemma": true, "noframe": true, "owned": true, "stateless": true, "opaque": true, "reveal": true, "uses": true, "protect": true, "protocol-only": true, "deterministic": true, "concurrent": true, "bag": true, "group": true, "include": true, "end": true, "trusted": true, "pure": true, "safe": true, "decreases": true, "let": true, "ghost": true, "init": true, "call": true, "mapupdate": true, "return-ensures": true, "package": true}
 
 // ParseContractFile reads the //@ lines of one file.
 func (cs *ContractSet) ParseContractFile(path, pkgPath string) error {
@@ -645,7 +668,7 @@ func (cs *ContractSet) ParseContractFile(path, pkgPath string) error {
 			if err != nil {
 				return fmt.Errorf("%s:%d: %v", path, it.n, err)
 			}
-			cs.Preds[name] = &Pred{Name: name, Params: params, Body: body, Src: rest, Opaque: kw == "opaquepred"}
+			cs.Preds[name] = &Pred{Name: name, Params: params, Body: body, Src: rest, Opaque: kw == "opaquepred", Pkg: pkgPath}
 		case "ufunc":
 			lp := strings.Index(rest, "(")
 			rp := strings.LastIndex(rest, ")")
@@ -672,9 +695,16 @@ func (cs *ContractSet) ParseContractFile(path, pkgPath string) error {
 			if ri < 0 || wi < ri {
 				return fmt.Errorf("%s:%d: protect T.field read EXPR write EXPR", path, it.n)
 			}
-			tf := strings.SplitN(strings.TrimSpace(rest[:ri]), ".", 2)
-			if len(tf) != 2 {
+			// Type.field, pkg.Type.field, Type.* (every field), Type.*!A!B (every field but A and B)
+			spec := strings.TrimSpace(rest[:ri])
+			ld := strings.LastIndex(spec, ".")
+			if ld < 0 {
 				return fmt.Errorf("%s:%d: protect needs Type.field", path, it.n)
+			}
+			tf := []string{spec[:ld], spec[ld+1:]}
+			typePkg := ""
+			if k := strings.Index(tf[0], "."); k >= 0 {
+				typePkg, tf[0] = tf[0][:k], tf[0][k+1:]
 			}
 			rc, err := mk(rest[ri+6 : wi])
 			if err != nil {
@@ -684,7 +714,7 @@ func (cs *ContractSet) ParseContractFile(path, pkgPath string) error {
 			if err != nil {
 				return err
 			}
-			cs.Protects = append(cs.Protects, Protect{Type: tf[0], Field: tf[1], Read: &rc, Write: &wc, Pkg: pkgPath})
+			cs.Protects = append(cs.Protects, Protect{Type: tf[0], Field: tf[1], Read: &rc, Write: &wc, Pkg: pkgPath, TypePkg: typePkg})
 		case "axiom", "lemma":
 			c, err := mk(rest)
 			if err != nil {
@@ -730,6 +760,22 @@ func (cs *ContractSet) ParseContractFile(path, pkgPath string) error {
 				cur.NoFrame = true
 			case "owned":
 				cur.Owned = append(cur.Owned, fields[1:]...)
+			case "stateless":
+				// stateless [tags] except G1 G2
+				sc := &StatelessClause{Except: map[string]bool{}}
+				sc.Clause = Clause{File: path, Line: it.n, Src: "no package-level state is written"}
+				r2 := strings.TrimSpace(rest)
+				for strings.HasPrefix(r2, "[") {
+					kk := strings.Index(r2, "]")
+					sc.Tags = append(sc.Tags, strings.TrimSpace(r2[1:kk]))
+					r2 = strings.TrimSpace(r2[kk+1:])
+				}
+				if strings.HasPrefix(r2, "except") {
+					for _, g := range strings.Fields(r2[len("except"):]) {
+						sc.Except[g] = true
+					}
+				}
+				cur.Stateless = sc
 			case "deterministic":
 				// "deterministic" (order discipline under C10) or "deterministic C01 C10" (under the listed properties)
 				cur.Deterministic = true
@@ -974,6 +1020,9 @@ func (cs *ContractSet) finalize() {
 		}
 		if fc.Decreases != nil {
 			all = append(all, fc.Decreases)
+		}
+		if fc.Stateless != nil {
+			all = append(all, &fc.Stateless.Clause)
 		}
 		for p := range fc.DetProps {
 			fc.props[p] = true
